@@ -309,6 +309,13 @@ for k, t in R15TXT.items():
         tech = tech + "; " + E3
     checks[k] = (lv, eng, tech, text + t, note)
 
+R16TXT = {
+ "C12": " Sixteenth round: the channel histories also configure an unused CFList slot as a disabled 0 Hz placeholder channel between custom channels (uplink and downlink lists must stay index-aligned).",
+}
+for k, t in R16TXT.items():
+    lv, eng, tech, text, note = checks[k]
+    checks[k] = (lv, eng, tech, text + t, note)
+
 def load_extra():
     p = os.path.join(V, "bin", "manifest_table.json")
     if os.path.exists(p):
